@@ -102,9 +102,11 @@ def check_distinct(case, db, feats, res):
     fts = sorted(db.featuretypes()); sq = sorted(db.seqids())
     if fts != sorted(set(f["ftype"] for f in feats)) or sq != sorted(set(f["seqid"] for f in feats)) \
             or len(fts) != len(set(fts)) or len(sq) != len(set(sq)):
-        common.fail(res, case, "distinct_lists_wrong", "featuretypes()/seqids() are not exactly the distinct values present",
+        common.fail(res, case, "distinct_lists_wrong",
+                    "featuretypes()/seqids() are not exactly the distinct values present",
                     observed={"featuretypes": fts, "seqids": sq},
-                    expected={"featuretypes": sorted(set(f["ftype"] for f in feats)), "seqids": sorted(set(f["seqid"] for f in feats))})
+                    expected={"featuretypes": sorted(set(f["ftype"] for f in feats)),
+                              "seqids": sorted(set(f["seqid"] for f in feats))})
     return fts, sq
 
 
@@ -165,8 +167,10 @@ def check_lists(case, db, alive, when, res):
     counts_ok = all(db.count_features_of_type(t) == sum(1 for f in alive if f["ftype"] == t) for t in set(wf) | {"gene", "exon"})
     res.evaluations += 1
     if fts != wf or sq != ws or not counts_ok or len(list(db.all_features())) != len(alive):
-        common.fail(res, case, "lists_after_history_wrong", "featuretypes()/seqids()/counts are not the values present %s" % when,
-                    observed={"featuretypes": fts, "seqids": sq}, expected={"featuretypes": wf, "seqids": ws}, counts_ok=counts_ok)
+        common.fail(res, case, "lists_after_history_wrong",
+                    "featuretypes()/seqids()/counts are not the values present %s" % when,
+                    observed={"featuretypes": fts, "seqids": sq}, expected={"featuretypes": wf, "seqids": ws},
+                    counts_ok=counts_ok)
 
 
 def judge(ctx, case):
@@ -216,7 +220,8 @@ def run(ctx):
         path = dbside.write_lines(os.path.join(ctx.scratch, "c11.gff3"), lines)
         db, rep = dbside.py_create(path, dbside.Cfg())
         if db is None:
-            common.fail(res, mk_case("import", lines, feats), "create_db_raised", "create_db raised: " + rep, error=rep, observed=rep)
+            common.fail(res, mk_case("import", lines, feats), "create_db_raised", "create_db raised: " + rep,
+                        error=rep, observed=rep)
             continue
         rows = {x["id"]: x for x in dbside.rows_of(db)}
         cmds.append(dbside.cmd_load(db)); exp.append("ok"); tags.append(("load", ""))
@@ -282,8 +287,8 @@ def run(ctx):
                 step = ["delete", t, r.choice(["ids", "features"])]
             else:
                 step = ["update", {"id": "new%d" % len(steps), "seqid": r.choice(["chrNew", "chr1"]), "source": "a",
-                                   "ftype": r.choice(["novel", "gene"]), "start": "5", "end": "9", "score": ".", "strand": "+",
-                                   "frame": ".", "extra": [], "note": "a"}]
+                                   "ftype": r.choice(["novel", "gene"]), "start": "5", "end": "9", "score": ".",
+                                   "strand": "+", "frame": ".", "extra": [], "note": "a"}]
             alive, desc = apply_step(ctx, db, step, alive)
             steps.append(step)
             check_lists(mk_case("history", lines, feats, history=list(steps)), db, alive, "after " + desc, res)
